@@ -68,10 +68,7 @@ CHECKS = {
                 "functions, and is refuted for four recorded defect classes by proved counterexamples. Tied to the real prelude driven "
                 "under Node by scripted frames of the emitted shape (emulation vs reference on every script), to the prelude checks on "
                 "boundary grids, and to compiled table / scenario / rendered-script programs GopherJS plain+minify vs native Go vs model.",
-        "note": "The general defer_refines (frames with deferred calls, suspension inside deferred calls) is stated, not proved - covered by "
-                "the script and program runs. 12 genuine defects recorded (Goexit swallowed by frames with defer, resurrected replaced panic, "
-                "defer recover(), forwarding-method recover, skipped deferreds after a blocking recover, close(nil), s[lo:], nil *[N]T index, "
-                "evaluation order of panicking stores, unhashable key error type, ...).",
+        "note": "After eight repairs (fix: fc7319c, 4728762+9f57406, efbb250, 3805daf, 3b471dc, 1da8b14, 2de40f9, and C03's 878216e) checks_exact and recover_depth are full strength; defer_refines_noNLE proves emulation = reference for all programs without panic/Goexit statements (arbitrary nesting of calls and deferred calls, all call kinds); single-frame functions with panics/Goexit are covered by defer_refines_partial. Not proved: panics or Goexit crossing frames with pending deferred calls, suspension inside deferred calls (three-way script and program ties only, 0 divergences). 3 known findings (remaining deferreds skipped after a blocking recover; nil-map / index store panics before the right-hand side is evaluated).",
         "technique": "Lean 4 proof (checks = spec for all operands; depth arithmetic; leaf simulation) + differential correspondence (scripted frames on the real prelude, boundary grids, compiled programs vs native Go)",
     },
     "C10": {
@@ -98,9 +95,7 @@ CHECKS = {
                 "callback guard's full statement is refuted with the 3-event witness and the partial (error raised, one surviving entry) "
                 "proved. Tied to the real prelude under Node on generated (type object, value) pairs to depth 4 and to self-checking "
                 "compiled programs using every js.Object accessor, with expectations computed by the model.",
-        "note": "Round trip for string-keyed maps and structs is stated but not proved (differential runs only); time.Time/Date and DOM rows "
-                "cannot be exercised here (package time does not build); $select in the guard model is not transcribed. 4 known findings: "
-                "callback guard leaves a queue entry (send, recv), -0 lost by $internalize, nil map comes back as an empty map.",
+        "note": 'After five repairs (fix: 7623049 callback guard, 8267759 -0, 4b94341 nil map, 851fa8e int/uint truncation, b9c1d05 array backing class) roundtrip is one theorem over scalars (incl. -0, NaN), slices, arrays, string-keyed maps and structs nested to any depth; callback_guard is the full statement (state unchanged when the error is raised) with $select modelled and scheduler_never_calls_noGoroutine as an invariant. Not in the theorem: functions beyond identity, time.Time/Date and DOM rows (cannot be exercised here), pointers/interfaces/*js.Object (tied, outside the table). No known findings left.',
         "technique": "Lean 4 proof (structural induction on types/values, cache invariant) + differential correspondence (Node prelude, compiled programs)",
     },
     "C07": {
@@ -112,9 +107,7 @@ CHECKS = {
                 "clone sites extracted with go/ast) does so except at four contexts - proved counterexamples = recorded findings. Tied to "
                 "the real prelude under Node vs model vs spec, and to generated alias-probe programs (random type shapes, 15 copy contexts, "
                 "8 aliasing templates) GopherJS plain+minify vs native Go vs the model's prediction.",
-        "note": "Not modelled in Lean (program tie vs native Go only): pointers ($get/$set, $indexPtr caches), closures, maps, the expression "
-                "translator. 5 known findings: boxing into an interface does not copy, range over an array value iterates the live array, "
-                "$growSlice shares struct/array elements, method values and interface dispatch run value-receiver methods on a shared object.",
+        "note": "After the repairs (fix: 6e37632 $growSlice, 7859eb0 boxing, 5209e47 range over array value, 33390c5 value receivers) value_semantics holds at full strength for the translator's clone table (no excluded context) and append_fresh_elems for all element kinds; pointers ($get/$set, $indexPtr caches) are modelled: ptr_identity, ptr_eq_iff, alias_semantics. Not modelled in Lean (program tie vs native Go only): maps, channels, closure capture, the expression translator. No known findings left.",
         "technique": "Lean 4 proof (model = spec; invariant by induction over statements; refinement) + differential correspondence (Node prelude, alias-probe programs vs native Go) + go/ast clone-site extraction",
     },
     "C04": {
@@ -127,10 +120,7 @@ CHECKS = {
                 "recursive instantiations, local generic types, both import directions): GopherJS plain+minify vs native Go with "
                 "per-instance probes (zero value, type description, arithmetic width, dispatch, blocking, identity matrix), and the real "
                 "per-package instance sets with ids vs the Lean collect on the same use-graph.",
-        "note": "Not proved: termination of the collector, translation of bodies, instName, per-instance blocking analysis, faithfulness to "
-                "go/types.Instantiate and subst (ties only). 6 known findings: 5 compiler panics (explicit qualified instantiation in a "
-                "generic body, function-local types as type arguments / inside composite types, FindNestingFunc cross-FileSet positions) and "
-                "a conflation of same-named local types across packages.",
+        "note": 'After two repairs (fix: 7e48a9a qualified instantiation in generic code, 678656f FindNestingFunc across packages) collect_terminates and collect_total are proved under a finite-closure hypothesis; sound/complete/exact keep WellScoped + LocalFree, and both counterexamples show LocalFree cannot be dropped for the code as it is. Not proved: translation of bodies, instName, per-instance blocking, faithfulness to go/types.Instantiate. 4 known findings (function-local types as type arguments / inside composite types: compiler panics; same-named local types across packages conflated).',
         "technique": "Lean 4 proof (work-list invariant; model = least fixed point) + model-first program generation + differential runs + instance-set comparison",
     },
     "C17": {
@@ -157,9 +147,7 @@ CHECKS = {
                 "proved counterexamples for two recorded defects. Tied to the real prelude under Node with controlled random/clock/timers and "
                 "compiler-shaped scripted goroutines, diffed against the model after every event and judged step by step by an independent "
                 "Go-channel transition system; compiled programs vs the model's prediction / allowed outcome set and native Go.",
-        "note": "no_lost_wakeup, awake_count (deadlock report) and refines_go are stated and their executable forms evaluated on every visited "
-                "state (millions of steps, exhaustive small configurations in the thorough tier) but NOT proved; select_default and progress are "
-                "not stated. Known findings: $close throws in the closer when a select-send entry is queued; close(nil) does not panic.",
+        "note": 'After the repairs (fix: 0810d0f select-send entry on close, 878216e close(nil)) close_semantics (with wake results), nil_never_proceeds, no_lost_wakeup (bookkeeping and liveness halves), awake_count, deadlock_report_iff and select_default are proved at full strength by induction over arbitrary event lists; only refines_go remains a stated Prop whose executable verdict is evaluated on every visited step (millions). No known findings left.',
         "technique": "Lean 4 proof (invariants by induction over event lists) + differential correspondence (real JS runtime vs Lean driver vs Go-channel LTS) + compiled programs",
     },
     "C09": {
@@ -171,9 +159,7 @@ CHECKS = {
                 "ComparableFlagsOk; 13 proved counterexamples for the recorded defects. Tied three-way (real prelude under Node / model / "
                 "spec) on generated type families probing every (dynamic type, interface) pair in shuffled orders, pinned emission format, "
                 "and generated Go programs against native Go.",
-        "note": "The general method-set theorem with embedding/shadowing is stated (methodset_correct_clean) but only the depth-0 case is proved; "
-                "dispatch is covered by programs only. 15 known findings (ambiguous promotion, memo/seen keyed by type string, struct key "
-                "omissions, JS-reserved method names, comparable flag, unexported name collisions, defined pointer types, ...).",
+        "note": 'After eight repairs (fix: 8133099 b3f60aa ff982ce 5175c53 bbaf114 56ac12f b0ccdc2 3971cb0) canon_identity is full strength for every constructor (interfaces under CleanMethod), assert_correct holds for every assertion sequence, iface_eq under LeafFlagsOk, and methodset_correct (embedding, promotion by depth, shadowing, pointer indirection) is proved under decidable CleanOn/WalkClean hypotheses that cover ~80% of generated probes. Dispatch is covered by programs only. 5 known findings sharing the $methodSet level merge (same-depth ambiguity, pointer-receiver shadow, field hides method, unexported names of two packages, method named constructor).',
         "technique": "Lean 4 proof (cache invariants, memo soundness over assertion sequences) + three-way differential correspondence + generated programs vs native Go",
     },
     "C05": {
@@ -184,9 +170,7 @@ CHECKS = {
                 "under injective renaming of filter names. Tied to the real dce.Selector (verif hook) on the full declaration tables of "
                 "every generated program incl. the runtime, to the linker's emission, to a static closure scan of live code, and to the "
                 "property's own observation: generated programs linked normally vs with every declaration forced alive vs native Go.",
-        "note": "Not proved: completeness of dependency recording in the translator and injectivity of the filter names (filters.go) - "
-                "exercised by 20 program generators (interfaces, unexported and same-named methods, method values/expressions, embedding, "
-                "generics, nested types, side-effecting initialisers, linknames, composite signature spellings).",
+        "note": 'Round 2 added a sole-reference matrix (19 ways of reaching a method x exported/unexported x value/pointer receiver = 76 cells, all generated in every run), a method-reference scan of live code, and filter_names_injective / method_filter_eq_iff over a term model of filters.go (not tied to the code by a run). Not proved: completeness of dependency recording in the translator.',
         "technique": "Lean 4 proof (loop invariant, well-founded recursion; model = least fixed point) + differential correspondence with the real selector through a verif hook + normal vs all-alive vs native program runs",
     },
     "C02": {
@@ -199,9 +183,7 @@ CHECKS = {
                 "programs P (no yields) and P' (yields at 13 kinds of call, loop posts, sub-expressions; one artefact, all/random schedule "
                 "subsets via an environment variable) under Node vs the Lean machine vs native Go, and by scans of the emitted case "
                 "skeleton, the $f/$restore lists and Decl.Blocking of the real archives.",
-        "note": "Not in the theorem (programs only): goto, deferred calls and blocking returns, &&/||/argument flattening, call depth is "
-                "compositional (a callee is abstracted as effect + number of suspensions). The full expression translator inside flattened "
-                "bodies is not modelled.",
+        "note": "Round 2 added deferred calls and the blocking return protocol (return_resume for every schedule; return_reeval_counterexample = the seeded change), andor_flat, args_order, flatten_correct_defer_partial (the two machines are composed at the return; the re-entry case of a blocking return is not part of flatten's code list). Not modelled: goto. One defect found and repaired (fix: ea9ea24 zero results after a recovered panic resumed). No known findings left.",
         "technique": "Lean 4 proof (compiler-correctness simulation with continuations; least fixed point) + differential program runs over schedule subsets + artefact structure ties",
     },
     "C16": {
@@ -213,8 +195,7 @@ CHECKS = {
                 "removeWhitespace/newVariable/encodeIdent through a verif hook (generated token soups, malformed streams exhaustively up "
                 "to length 4-5, every Decl code field of compiled programs, on which GenWF/SafeAdjacent are evaluated) and to generated "
                 "programs built plain and minified and run natively.",
-        "note": "names_distinct assumes the compiler's stack discipline for allocations; minify-off name$n scheme stated, not proved; esbuild "
-                "minification of the prelude is exercised only. Known finding: a Go variable named `console` (plain build fails, minified works).",
+        "note": "names_distinct covers varPtrName after the repairs (fix: 2fad7d7 non-ASCII needsSpace, 2e63cf2 per-context pointer variable names) and assumes the compiler's stack discipline for allocations; the minify-off name$n scheme is proved in C01 (names_distinct_plain); esbuild minification of the prelude is exercised only. 1 known finding shared with C01 (a Go variable named `console`: plain build fails, minified works).",
         "technique": "Lean 4 proof (refinement scanner = item algorithm, token automaton simulation, allocator invariant over histories) + differential correspondence through a verif hook + plain/minify/native program comparison",
     },
     "C20": {
@@ -226,9 +207,7 @@ CHECKS = {
                 "equal final names. Tied to the real build/cache in a scratch cache directory (adversarial configurations, timestamps), "
                 "to exhaustive truncation / byte-flip enumeration of real cache files, to SIGKILL injection (strace) at every write/close/"
                 "rename of Store, and to JS built without cache / cold / warm / damaged cache in fresh processes.",
-        "note": "Not modelled: gzip, gob, SHA-256 (injectivity is a hypothesis), OS rename atomicity, concurrent writers. 6 known findings: key "
-                "collision via path.Join, gzip checksum never verified (altered content accepted, or Sources.Read panics), free-floating "
-                "//go:linkname lost by the serializer, main package '.' shared between project directories. Repairs proposed in fixes/.",
+        "note": 'After four repairs (fix: 705f582 key without path.Clean, ef1cd31 gzip checksum verified before decoding, dfb9645 floating comments kept, e26221a local import paths not cached) key_injective, cachedPath_injective and load_provenance are full strength (quoting modelled for all byte strings incl. multi-byte UTF-8). Hypotheses, not modelled: gzip/gob envelope, SHA-256 injectivity, OS rename atomicity, no concurrent writers; cleanBytes = clean is stated and tied exhaustively, not proved. No known findings left.',
         "technique": "Lean 4 proof (induction over step sequences and histories, prefix-code argument) + differential correspondence with the real cache + fault enumeration (truncation, flips, strace kill points)",
     },
     "C06": {
@@ -238,9 +217,7 @@ CHECKS = {
                 "canonical-representative and exact-double invariants, mul64 and the 64-bit add/sub/neg. Tied to the real prelude helpers under "
                 "Node (boundary grid x all shift counts) and to compiled table programs (exhaustive for 8-bit types in the thorough tier) "
                 "against the Lean spec and native Go.",
-        "note": "Not proved (stated as Props, covered by differential runs only): & | ^ &^ and shift schemes, 64-bit shifts, $div64; float and "
-                "complex arithmetic only against native Go (IEEE rounding delegated to the engine). 10 known findings (unary minus MIN/-0, "
-                "% -0, int8/16 MIN/-1, >> constant >= 32, negative shift count, - -a, float->64-bit carry, $divComplex x2).",
+        "note": 'After the repairs (fix: 2b29449 unary minus, 4ec94fa quotient, 3b2cfda remainder, 07b97d5 >> constant, 22878a7 64-bit constructor) scheme_correct, bitwise_correct, shift_correct (every count), shift64_correct, repr_inv are full strength. Not proved: the quotient/remainder values of $div64 (panic condition, canonical result and termination are); float and complex arithmetic only against native Go (IEEE rounding delegated to the engine). Shift by a negative count is the documented permitted difference. 2 known findings ($divComplex special values / equal-magnitude branch).',
         "technique": "Lean 4 proof (schemes = BitVec spec, unbounded) + three-way differential correspondence (real prelude / compiled programs / native Go)",
     },
     "C15": {
@@ -250,8 +227,7 @@ CHECKS = {
                 "abstract map; the emitted range loop visits every surviving entry exactly once and never a deleted one, for every loop body. "
                 "Tied to the real keyFor functions under Node on generated typed key pairs (depth 3, adversarial strings, equally named types) "
                 "and to compiled map-history programs against the model and native Go.",
-        "note": "Modelled, not verified: Number::toString injectivity on arbitrary doubles; blank struct fields; the compiled == (C06/C09). "
-                "4 known findings (complex NaN, float-array NaN, interface type-string, named pointer conversion).",
+        "note": "After four repairs (fix: 3872e1a, f2c4271, 18405f1, d275e0d) key_injective and map_refines are full strength (hypotheses: ToStringOK - Number::toString injective on finite doubles, stated explicitly and discharged for the driver's instance; key typing; the proved state invariant). Modelled, not verified: a dynamic type is identified by its typ.id; blank struct fields (program witness vs native Go). 1 known finding (named pointer conversion allocates a new pointer object).",
         "technique": "Lean 4 proof (structural induction on key types, refinement, loop invariant) + differential correspondence (Node prelude, compiled programs, native Go)",
     },
     "C19": {
@@ -261,8 +237,7 @@ CHECKS = {
                 "start a hint; byte vs UTF-16 columns agree under AsciiBeforeHints (checked on every emitted file). Tied to the real "
                 "Hint/Filter/WriteJS/funcContext through a verif hook, and to generated programs built plain and minified with maps: no hint "
                 "bytes left, same code with and without map, mappings in range, statement starts, Node stack frames resolved through the map.",
-        "note": "Not modelled: gob payload encoding, token.FileSet, esbuild, where the translator places positions (program tie only). "
-                "Known findings: JS first-line column not shifted, if-statements / switch tags / func-literal calls without position, numberic.js.",
+        "note": "After three repairs (fix: 7f3fc72, fa56715, 9aee220) offset_js is full strength and every statement kind of the generator must carry a mapping; minify_keeps_mappings bridges to C16's rw_items. Not modelled: gob payload encoding, token.FileSet, esbuild, where the translator places positions (program tie only). 2 known findings (switch tag and function-literal call frames without position).",
         "technique": "Lean 4 proof (induction over item lists and chunkings) + differential correspondence through a verif hook + compiled programs with decoded source maps",
     },
     "C12": {
@@ -274,9 +249,7 @@ CHECKS = {
                 "theorems, two recorded known findings replayed against the real functions and go/types on every run. Tied by running "
                 "the real functions (verif hook) on generated source pairs and on the 78 real natives overlays, plus the real "
                 "parseAndAugment on natives packages.",
-        "note": "Trusted: Lean kernel; hand model tied by differential runs; go/parser comment association and the directive regex are "
-                "exercised, not modelled; 'the merged package type-checks' is observed with go/types, not proved. Known findings: "
-                "C12-const-iota-shift, C12-const-initialiser-orphaned (proposed repair in fixes/, not applied).",
+        "note": "Trusted: Lean kernel; hand model tied by differential runs (hook sequence AND the real parseAndAugment on natives packages and on generated pairs); go/parser comment association and the directive regex are exercised, not modelled; 'the merged package type-checks' is observed with go/types. 2 known findings (const-group iota shift, orphaned implicit-repetition specs; proposed repair in fixes/ has caveats and is not applied).",
         "technique": "Lean 4 proof (model = documented rules, all file pairs) + differential correspondence through a verif hook + go/types oracle",
     },
     "C18": {
